@@ -40,11 +40,11 @@ def _build(rng):
     nd = rng.choice([0, 1, 2, 3])
     defines = {}
     for i in range(nd):
-        defines[f"d_{'abc'[i]}"] = rng.choice([0, 1, 5, 0x10, 0xFF, 0x1234, 0x12345])
+        defines[f"d_{'abc'[i]}"] = rng.choice([0, 1, 5, 0x10, 0x1F, 0xFF, 0xAB, 0x1234, 0x12AB, 0xC0DE, 0x12345, 0xFEDCBA])
     prof = progen.Profile(max_stmts=12, reloc_ram=False, big_incbin=rng.random() < 0.25, defines=defines, org_weight=8)
     case = progen.generate(rng, prof, rom=rom)
     case["defines"] = defines
-    case["define_forms"] = [rng.choice(["d", "x"]) for _ in defines]
+    case["define_forms"] = [rng.choice(["d", "x", "X", "b"]) for _ in defines]  # decimal, 0x lower / UPPER-case digits, 0b
     case["sub"] = rng.random() < 0.1
     return case
 
@@ -116,7 +116,8 @@ def run_case(case) -> Outcome:
     nblocks = len(ref["blocks"])
     dargs = []
     if defines:
-        dargs = ["-D"] + [f"{k}={v}" if f == "d" else f"{k}=0x{v:x}" for (k, v), f in zip(defines.items(), case.get("define_forms") or ["d"] * len(defines))]
+        fmt_ = {"d": lambda v: str(v), "x": lambda v: f"0x{v:x}", "X": lambda v: f"0x{v:X}", "b": lambda v: f"0b{v:b}"}
+        dargs = ["-D"] + [f"{k}={fmt_[f](v)}" for (k, v), f in zip(defines.items(), case.get("define_forms") or ["d"] * len(defines))]
 
     def check_ips(tag, blob, copier, sub):
         try:
